@@ -307,9 +307,10 @@ theorem langOk_noexts {l : Lang} (h : langOk l = true) (hw : isWv l.id = false) 
     and DRMREL, whose typed content is C12's subject): a reader whose string table resolves the
     encoder's table reads back exactly the text (`syncmlTypeText` is the SyncML `+xml` → `+wbxml`
     media-type rewriting), whether or not a string table is used and whatever it contains. -/
-theorem encContentValueW_text (c : WCfg) (parent : Option Name) (s : Bytes) (st st' : WSt)
+theorem encContentValueW_text' (c : WCfg) (parent : Option Name) (s : Bytes) (st st' : WSt)
     (hs : nulFree s = true) (hl : langOk c.lang = true) (hnw : isWv c.lang.id = false)
-    (hnd : (c.lang.id == 1801) = false) (h : encContentValueW c parent s st = .ok st') :
+    (hnd : (if (c.lang.id == 1801) = true then drmrelContentW parent s st else pure none) = .ok none)
+    (h : encContentValueW c parent s st = .ok st') :
     ∃ items, st' = st.emit (serItems items) ∧ (∀ it ∈ items, Leaf c st.strtbl it) ∧
       (s = [] → items = []) ∧ opqsItems items = [] ∧
       ∀ ctx : Ctx, Resolves ctx.tbl st.strtbl → ∀ own pg,
@@ -322,7 +323,8 @@ theorem encContentValueW_text (c : WCfg) (parent : Option Name) (s : Bytes) (st 
     have hse : s = [] := List.isEmpty_iff.mp he
     exact ⟨[], by rw [serItems_nil, emit_nil], (by intro it hit; cases hit), fun _ => rfl, opqsItems_nil,
       fun _ _ _ _ => ⟨fun hne => absurd hse hne, by subst hse; rw [evItems_nil, syncmlTypeText_nil]; rfl⟩⟩
-  · simp only [hnw, Bool.false_eq_true, ↓reduceIte, hnd, langOk_noexts hl hnw] at h
+  · simp only [hnw, Bool.false_eq_true, ↓reduceIte, langOk_noexts hl hnw] at h
+    rw [hnd] at h
     have h' : (do
         let l ← (if c.useStrtbl = true then splitByStrtbl st.strtbl [VElt.str (syncmlTypeText c.lang.id s)]
           else pure [VElt.str (syncmlTypeText c.lang.id s)])
@@ -375,15 +377,122 @@ def normText (c : WCfg) (s : Bytes) : Bytes :=
   if c.ignoreEmpty && s.all isSpaceC then []
   else syncmlTypeText c.lang.id (cstrOf (if c.removeBlanks then stripBlanks s else s))
 
+theorem encContentValueW_text (c : WCfg) (parent : Option Name) (s : Bytes) (st st' : WSt)
+    (hs : nulFree s = true) (hl : langOk c.lang = true) (hnw : isWv c.lang.id = false)
+    (hnd : (c.lang.id == 1801) = false) (h : encContentValueW c parent s st = .ok st') :
+    ∃ items, st' = st.emit (serItems items) ∧ (∀ it ∈ items, Leaf c st.strtbl it) ∧
+      (s = [] → items = []) ∧ opqsItems items = [] ∧
+      ∀ ctx : Ctx, Resolves ctx.tbl st.strtbl → ∀ own pg,
+        (s ≠ [] → charsCat (evItems ctx own pg items).1 = syncmlTypeText c.lang.id s) ∧
+        (evItems ctx own pg items).1.flatMap toks = (syncmlTypeText c.lang.id s).map .ch :=
+  encContentValueW_text' c parent s st st' hs hl hnw (by simp only [hnd, Bool.false_eq_true, ↓reduceIte]; rfl) h
+
+/-- Outside a `ds:KeyValue` token element `wbxml_encode_drmrel_content` declines. -/
+theorem drmrel_none (l : Lang) (parent : Option Name) (s : Bytes) (st : WSt) (h : kvPar l parent = false)
+    (hid : l.id = 1801) : drmrelContentW parent s st = .ok none := by
+  unfold drmrelContentW
+  cases parent with
+  | none => rfl
+  | some nm =>
+    cases nm with
+    | literal x => rfl
+    | token r =>
+      simp only [kvPar, isKvRow, hid, beq_self_eq_true, Bool.true_and] at h
+      simp only [h, Bool.false_eq_true, ↓reduceIte]
+      rfl
+
+/-- **The character data a reader gets for a text node**, as a function of the source text, the name
+    of the enclosing element and the encoder's `current_tag` (every language but Wireless Village):
+    the raw octets under a binary-flagged tag (ActiveSync); under a DRMREL `ds:KeyValue` token
+    element the base64 text `decode_base64_value` makes of the octets the encoder's base64 decoder
+    makes of the text (RFC 4648 re-encoding, C12); `normText` otherwise. No option other than the
+    white-space policy is looked at. -/
+def vText (c : WCfg) (parent : Option Name) (cur : Option TagRow) (s : Bytes) : Bytes :=
+  if isBinaryTag cur then s
+  else if kvPar c.lang parent && !textSilent c s then
+    match Codec.b64DecodeE (b64TextW (textArg c s)) with
+    | .ok p => (match decodeBase64Value p with | .ok b => b | .error _ => [])
+    | .error _ => normText c s
+  else normText c s
+
+/-- What `encTextW_spec'` says about the reader's view of the items of a text node — every language
+    but Wireless Village; `own` is the reader's own tag at the place of the text (same page and token
+    as `current_tag` / as the parent's row: `Pos.cur`, `Pos.par`). -/
+def TextViewT (c : WCfg) (parent : Option Name) (s : Bytes) (st : WSt) (items : List Item) : Prop :=
+  isWv c.lang.id = false → langOk c.lang = true → typedLangOk c.lang = true → st.inCdata = false →
+  ∀ ctx : Ctx, ctx.lang = c.lang → Resolves ctx.tbl st.strtbl → ∀ own : Option TagRow,
+    (∀ r, st.curTag = some r → ∃ r', own = some r' ∧ r'.page = r.page ∧ r'.token = r.token ∧
+      ∃ tags, c.lang.tags = some tags ∧ r ∈ tags) →
+    (∀ r0, parent = some (.token r0) → ∃ r', own = some r' ∧ r'.page = r0.page ∧ r'.token = r0.token) →
+    ∀ pg, (evItems ctx own pg items).1.flatMap toks = (vText c parent st.curTag s).map .ch
+
+theorem kvPar_id (l : Lang) (parent : Option Name) (h : kvPar l parent = true) : l.id = 1801 := by
+  cases parent with
+  | none => cases h
+  | some nm =>
+    cases nm with
+    | literal x => cases h
+    | token r =>
+      simp only [kvPar, isKvRow, Bool.and_eq_true, beq_iff_eq] at h
+      exact h.1.1
+
+theorem opaque_toks (ctx : Ctx) (own : Option TagRow) (pg : Pages) (d b : Bytes)
+    (h : (opaqueText ctx own d).getD [] = b) :
+    (evItems ctx own pg [.opaque d]).1.flatMap toks = b.map .ch := by
+  rw [evItems_cons, evItems_nil, evItem_opaque]
+  simp only [List.append_nil, h, toks_charsEv]
+
 /-- Which OPAQUE a text node may be written as: none; the raw octets under a binary-flagged
     `current_tag`; or the single typed one (outside CDATA, for text that is not silent). -/
 def TextOut (c : WCfg) (parent : Option Name) (s : Bytes) (st : WSt) (items : List Item) : Prop :=
   opqsItems items = [] ∨ (isBinaryTag st.curTag = true ∧ items = [.opaque s]) ∨
   ∃ p, items = [.opaque p] ∧ textSilent c s = false ∧ st.inCdata = false ∧ TypedOut c parent (textArg c s) st.curTag p
 
+/-- Under a `ds:KeyValue` token element (DRMREL) the value encoder writes nothing for an empty text
+    and otherwise exactly one OPAQUE: the octets its base64 decoder makes of the text. -/
+theorem encContentValueW_kv (c : WCfg) (parent : Option Name) (a : Bytes) (st st' : WSt)
+    (hw : isWv c.lang.id = false) (hk : kvPar c.lang parent = true)
+    (h : encContentValueW c parent a st = .ok st') :
+    (a = [] ∧ st' = st) ∨ (a ≠ [] ∧ ∃ p, Codec.b64DecodeE (b64TextW a) = .ok p ∧ st' = st.emit (opaqueW p)) := by
+  have hid := kvPar_id _ _ hk
+  have hid' : (c.lang.id == 1801) = true := by simp [hid]
+  unfold encContentValueW at h
+  split at h
+  · rename_i he
+    injection h with h
+    exact Or.inl ⟨List.isEmpty_iff.mp he, h.symm⟩
+  · rename_i hne
+    have hane : a ≠ [] := fun e => hne (by rw [e]; rfl)
+    simp only [hw, Bool.false_eq_true, ↓reduceIte] at h
+    cases hd : drmrelContentW parent a st with
+    | error e => rw [hd] at h; cases h
+    | ok r2 =>
+      rw [hd] at h
+      cases r2 with
+      | none =>
+        exfalso
+        unfold drmrelContentW at hd
+        cases parent with
+        | none => cases hk
+        | some nm =>
+          cases nm with
+          | literal x => cases hk
+          | token r =>
+            simp only [kvPar, isKvRow, hid, beq_self_eq_true, Bool.true_and] at hk
+            simp only [hk, ↓reduceIte] at hd
+            cases hx : Codec.b64DecodeE (b64TextW a) with
+            | error e => rw [hx] at hd; cases hd
+            | ok d => rw [hx] at hd; cases hd
+      | some st1 =>
+        have h' : (Except.ok st1 : Except Err WSt) = .ok st' := h
+        injection h' with h'; subst h'
+        obtain ⟨p, hp, _, _, _, hdec⟩ := drmrelContentW_some' parent a st st1 hd
+        exact Or.inr ⟨hane, p, hdec, by rw [hp, serItem_opq]⟩
+
 /-- `parse_text`: leaves only; neither code page nor the string table changes; outside CDATA and
     binary-flagged elements, in a language whose content is not typed, a reader gets exactly the
-    octets of `normText`. -/
+    octets of `normText`; in every language but Wireless Village a reader at the same position gets
+    the octets of `vText` (`TextViewT`). -/
 theorem encTextW_spec' (c : WCfg) (parent : Option Name) (s : Bytes) (st st' : WSt) (hinv : StrInv st)
     (h : encTextW c parent s st = .ok st') :
     ∃ items, (∀ it ∈ items, Leaf c st.strtbl it) ∧ st'.out = st.out ++ serItems items ∧
@@ -394,7 +503,7 @@ theorem encTextW_spec' (c : WCfg) (parent : Option Name) (s : Bytes) (st st' : W
         opqsItems items = [] ∧
         ∀ ctx : Ctx, Resolves ctx.tbl st.strtbl → ∀ own pg,
           (evItems ctx own pg items).1.flatMap toks = (normText c s).map .ch) ∧
-      TextOut c parent s st items := by
+      TextOut c parent s st items ∧ TextViewT c parent s st items := by
   have hA : ∀ k s', ({ st with textNo := st.textNo + 1 } : WSt).aliasWrite k s' = { st with textNo := st.textNo + 1 } :=
     fun k s' => aliasWrite_eq _ k s' hinv.noAlias
   unfold encTextW at h
@@ -402,24 +511,48 @@ theorem encTextW_spec' (c : WCfg) (parent : Option Name) (s : Bytes) (st st' : W
   split at h
   · rename_i hbin
     injection h with h; subst h
+    have hbin' : isBinaryTag st.curTag = true := hbin
     refine ⟨[.opaque s], by intro it hit; simp only [List.mem_cons, List.mem_nil_iff, or_false] at hit; subst hit; exact .opq s,
-      by rw [serItems_cons, serItems_nil, serItem_opq]; simp, rfl, rfl, rfl, rfl, rfl, ?_, Or.inr (Or.inl ⟨hbin, rfl⟩)⟩
-    intro _ _ _ _ hb
-    have : isBinaryTag st.curTag = true := hbin
-    rw [hb] at this; cases this
-  · split at h
+      by rw [serItems_cons, serItems_nil, serItem_opq]; simp, rfl, rfl, rfl, rfl, rfl, ?_, Or.inr (Or.inl ⟨hbin, rfl⟩), ?_⟩
+    · intro _ _ _ _ hb
+      rw [hb] at hbin'; cases hbin'
+    · intro _ _ htl _ ctx hlang _ own hcur _ pg
+      cases hct : st.curTag with
+      | none => rw [hct] at hbin'; cases hbin'
+      | some r =>
+        obtain ⟨r', hown, hpage, htok, tags, ht, hm⟩ := hcur r hct
+        have hu : typedOpt ctx.lang.id own = false := by
+          rw [hown, hlang]
+          show typedRow c.lang.id r' = false
+          rw [typedRow_congr _ r r' hpage htok]
+          exact typedLangOk_binary htl ht hm (by rw [← hct]; exact hbin')
+        rw [opaque_toks ctx own pg s s (by rw [opaqueText_untyped ctx own s hu]; rfl)]
+        rw [← hct]
+        simp only [vText, hbin', ↓reduceIte]
+  · rename_i hnbin
+    have hnb : isBinaryTag st.curTag = false := by
+      cases hb : isBinaryTag st.curTag with
+      | false => rfl
+      | true => exact absurd hb hnbin
+    split at h
     · rename_i hskip
       injection h with h; subst h
       refine ⟨[], (by intro it hit; cases hit), by rw [serItems_nil, List.append_nil], rfl, rfl, rfl, rfl, rfl, ?_,
-        Or.inl opqsItems_nil⟩
-      intro _ _ _ hcd _
-      refine ⟨opqsItems_nil, ?_⟩
-      intro ctx _ own pg
-      have hskip' : (!st.inCdata && c.ignoreEmpty && s.all isSpaceC) = true := hskip
-      rw [hcd] at hskip'
-      simp only [Bool.not_false, Bool.true_and] at hskip'
-      rw [evItems_nil]
-      simp [normText, hskip']
+        Or.inl opqsItems_nil, ?_⟩
+      · intro _ _ _ hcd _
+        refine ⟨opqsItems_nil, ?_⟩
+        intro ctx _ own pg
+        have hskip' : (!st.inCdata && c.ignoreEmpty && s.all isSpaceC) = true := hskip
+        rw [hcd] at hskip'
+        simp only [Bool.not_false, Bool.true_and] at hskip'
+        rw [evItems_nil]
+        simp [normText, hskip']
+      · intro _ _ _ hcd ctx _ _ own _ _ pg
+        have hskip' : (!st.inCdata && c.ignoreEmpty && s.all isSpaceC) = true := hskip
+        rw [hcd] at hskip'
+        simp only [Bool.not_false, Bool.true_and] at hskip'
+        rw [evItems_nil]
+        simp [vText, hnb, textSilent, normText, hskip']
     · rename_i hskip
       split at h
       · rename_i hcd1
@@ -428,9 +561,11 @@ theorem encTextW_spec' (c : WCfg) (parent : Option Name) (s : Bytes) (st st' : W
         · cases h
         · injection h with h; subst h
           refine ⟨[], (by intro it hit; cases hit), by rw [serItems_nil, List.append_nil], rfl, rfl, rfl, rfl, rfl, ?_,
-            Or.inl opqsItems_nil⟩
-          intro _ _ _ hcd _
-          rw [hcd1'] at hcd; cases hcd
+            Or.inl opqsItems_nil, ?_⟩
+          · intro _ _ _ hcd _
+            rw [hcd1'] at hcd; cases hcd
+          · intro _ _ _ hcd
+            rw [hcd1'] at hcd; cases hcd
       · rename_i hcd1
         have hcd0 : st.inCdata = false := by simpa using hcd1
         have hskip0 : (c.ignoreEmpty && s.all isSpaceC) = false := by
@@ -439,32 +574,104 @@ theorem encTextW_spec' (c : WCfg) (parent : Option Name) (s : Bytes) (st st' : W
           simpa using hskip'
         have harg : cstrOf (if (!st.inCdata && c.removeBlanks) = true then stripBlanks s else s) = textArg c s := by
           simp only [textArg, hcd0, Bool.not_false, Bool.true_and]
-        obtain ⟨items, hst, hleaf, hcls⟩ := encContentValueW_spec' c parent _ _ st' (nulFree_cstrOf _) h
-        have hout : TextOut c parent s st items := by
-          rcases hcls with hno | ⟨p, hp1, hp2, hp3⟩
-          · exact Or.inl hno
-          · refine Or.inr (Or.inr ⟨p, hp1, ?_, hcd0, ?_⟩)
-            · rw [harg] at hp2
-              simp only [textSilent, hskip0, Bool.false_or, List.isEmpty_eq_false_iff]
-              exact hp2
-            · rw [harg] at hp3; exact hp3
-        by_cases hp : isWv c.lang.id = false ∧ (c.lang.id == 1801) = false ∧ langOk c.lang = true
-        · obtain ⟨items2, hst2, hleaf2, _, hnoq, htxt⟩ :=
-            encContentValueW_text c parent _ _ st' (nulFree_cstrOf _) hp.2.2 hp.1 hp.2.1 h
+        rw [harg] at h
+        have hsil : textSilent c s = (textArg c s).isEmpty := by simp only [textSilent, hskip0, Bool.false_or]
+        have hnorm : normText c s = syncmlTypeText c.lang.id (textArg c s) := by
+          simp only [normText, hskip0, Bool.false_eq_true, ↓reduceIte, textArg]
+        by_cases hp : isWv c.lang.id = false ∧ ((c.lang.id == 1801) = false ∨ kvPar c.lang parent = false) ∧
+            langOk c.lang = true
+        · -- the generic path
+          have hkvF : kvPar c.lang parent = false := by
+            rcases hp.2.1 with h1 | h1
+            · cases hk : kvPar c.lang parent with
+              | false => rfl
+              | true =>
+                have := kvPar_id _ _ hk
+                rw [this] at h1; cases h1
+            · exact h1
+          have hdr : (if (c.lang.id == 1801) = true then
+              drmrelContentW parent (textArg c s) { st with textNo := st.textNo + 1 } else pure none) = .ok none := by
+            by_cases hid : (c.lang.id == 1801) = true
+            · simp only [hid, ↓reduceIte]
+              exact drmrel_none c.lang parent _ _ hkvF (by simpa using hid)
+            · simp only [hid]; rfl
+          obtain ⟨items2, hst2, hleaf2, _, hnoq, htxt⟩ :=
+            encContentValueW_text' c parent _ _ st' (nulFree_cstrOf _) hp.2.2 hp.1 hdr h
           subst hst2
-          refine ⟨items2, hleaf2, rfl, rfl, rfl, rfl, rfl, rfl, ?_, Or.inl hnoq⟩
-          intro _ _ _ hcd _
-          refine ⟨hnoq, ?_⟩
-          intro ctx hres own pg
-          have hskip' : ¬ (!st.inCdata && c.ignoreEmpty && s.all isSpaceC) = true := hskip
-          rw [hcd] at hskip'
-          simp only [Bool.not_false, Bool.true_and] at hskip'
-          rw [(htxt ctx hres own pg).2]
-          simp only [normText, hskip', Bool.false_eq_true, ↓reduceIte, hcd, Bool.not_false, Bool.true_and]
-        · subst hst
-          refine ⟨items, hleaf, rfl, rfl, rfl, rfl, rfl, rfl, ?_, hout⟩
-          intro h1 h2 h3
-          exact absurd ⟨h1, h2, h3⟩ hp
+          refine ⟨items2, hleaf2, rfl, rfl, rfl, rfl, rfl, rfl, ?_, Or.inl hnoq, ?_⟩
+          · intro _ _ _ _ _
+            refine ⟨hnoq, ?_⟩
+            intro ctx hres own pg
+            rw [(htxt ctx hres own pg).2, hnorm]
+            rfl
+          · intro _ _ _ _ ctx _ hres own _ _ pg
+            rw [(htxt ctx hres own pg).2]
+            simp only [vText, hnb, Bool.false_eq_true, ↓reduceIte, hkvF, Bool.false_and, hnorm]
+            rfl
+        · by_cases hk : isWv c.lang.id = false ∧ kvPar c.lang parent = true
+          · -- DRMREL `ds:KeyValue`
+            have hid := kvPar_id _ _ hk.2
+            rcases encContentValueW_kv c parent _ _ st' hk.1 hk.2 h with ⟨ha, hst⟩ | ⟨ha, p, hdec, hst⟩
+            · subst hst
+              refine ⟨[], (by intro it hit; cases hit), by rw [serItems_nil, List.append_nil], rfl, rfl, rfl, rfl, rfl, ?_,
+                Or.inl opqsItems_nil, ?_⟩
+              · intro _ h2
+                rw [hid] at h2; cases h2
+              · intro _ _ _ _ ctx _ _ own _ _ pg
+                rw [evItems_nil]
+                have : textSilent c s = true := by rw [hsil, ha]; rfl
+                simp only [vText, hnb, Bool.false_eq_true, ↓reduceIte, this, Bool.not_true, Bool.and_false, hnorm, ha,
+                  syncmlTypeText_nil]
+                rfl
+            · subst hst
+              have hsilF : textSilent c s = false := by
+                rw [hsil]
+                cases hx : textArg c s with
+                | nil => exact absurd hx ha
+                | cons _ _ => rfl
+              obtain ⟨r, hpar, hkvr⟩ : ∃ r, parent = some (.token r) ∧ isKvRow c.lang.id r = true := by
+                cases parent with
+                | none => cases hk.2
+                | some nm =>
+                  cases nm with
+                  | literal x => cases hk.2
+                  | token r => exact ⟨r, rfl, hk.2⟩
+              refine ⟨[.opaque p], (by intro it hit; simp only [List.mem_cons, List.mem_nil_iff, or_false] at hit; subst hit; exact .opq p),
+                by rw [serItems_cons, serItems_nil, serItem_opq]; simp, rfl, rfl, rfl, rfl, rfl, ?_,
+                Or.inr (Or.inr ⟨p, rfl, hsilF, hcd0, Or.inr ⟨hid, r, hpar, hkvr, hdec⟩⟩), ?_⟩
+              · intro _ h2
+                rw [hid] at h2; cases h2
+              · intro _ _ _ _ ctx hlang _ own _ hparO pg
+                obtain ⟨r', hown, hpage, htok⟩ := hparO r hpar
+                have hid' : ctx.lang.id = 1801 := by rw [hlang]; exact hid
+                have hkr' : (r'.page == 0 && r'.token == 0x0C) = true := by
+                  have := hkvr
+                  simp only [isKvRow, hid, beq_self_eq_true, Bool.true_and, ← hpage, ← htok] at this
+                  exact this
+                have hot : (opaqueText ctx own p).getD [] = (match decodeBase64Value p with | .ok b => b | .error _ => []) := by
+                  rw [hown]
+                  simp only [opaqueText, decodeOpaqueContent, hid', isWv, Nat.reduceBEq, Bool.or_self, Bool.false_eq_true,
+                    ↓reduceIte, beq_self_eq_true, hkr']
+                  cases decodeBase64Value p <;> rfl
+                rw [opaque_toks ctx own pg p _ hot]
+                simp only [vText, hnb, Bool.false_eq_true, ↓reduceIte, hk.2, hsilF, Bool.not_false, Bool.and_self, hdec]
+          · -- Wireless Village, or tables outside `langOk`: nothing is claimed about the view
+            obtain ⟨items, hst, hleaf, hcls⟩ := encContentValueW_spec' c parent _ _ st' (nulFree_cstrOf _) h
+            have hout : TextOut c parent s st items := by
+              rcases hcls with hno | ⟨p, hp1, hp2, hp3⟩
+              · exact Or.inl hno
+              · refine Or.inr (Or.inr ⟨p, hp1, ?_, hcd0, hp3⟩)
+                simp only [textSilent, hskip0, Bool.false_or, List.isEmpty_eq_false_iff]
+                exact hp2
+            subst hst
+            refine ⟨items, hleaf, rfl, rfl, rfl, rfl, rfl, rfl, ?_, hout, ?_⟩
+            · intro h1 h2 h3
+              exact absurd ⟨h1, Or.inl h2, h3⟩ hp
+            · intro h1 h3 _ _
+              exfalso
+              cases hkv : kvPar c.lang parent with
+              | false => exact hp ⟨h1, Or.inr hkv, h3⟩
+              | true => exact hk ⟨h1, hkv⟩
 
 theorem encTextW_spec (c : WCfg) (parent : Option Name) (s : Bytes) (st st' : WSt) (hinv : StrInv st)
     (h : encTextW c parent s st = .ok st') :
